@@ -156,8 +156,18 @@ class C19(Check):
         # ---- four CLI runs side by side (each on its own project copy), the API in-process meanwhile
         fargs = ["fix"] + opts
         with C.Project(case, "l") as pl, C.Project(case, "f") as pf, C.Project(case, "s") as ps:
+            # In half of the cases the path run gets a second, comment-only file of the same directory *before* the
+            # target (a path run over several files shares one runner): per-file state such as in-file directives
+            # must still be the target's own.
+            lint_paths_args = [pl.fname]
+            if len(sql) % 2 == 0:
+                sib = os.path.join(os.path.dirname(pl.fname), "aa_sibling.sql")
+                with open(os.path.join(pl.root, sib), "w") as fh:
+                    fh.write("-- sibling\n")
+                lint_paths_args = [sib, pl.fname]
+                out.label("path-run-with-sibling")
             jobs = {
-                "lint-path": C.CliJob(["lint", "--format", "json"] + opts + [pl.fname], pl.root),
+                "lint-path": C.CliJob(["lint", "--format", "json"] + opts + lint_paths_args, pl.root),
                 "lint-stdin": C.CliJob(["lint", "--format", "json"] + opts + ["-", "--stdin-filename", pl.fname], pl.root,
                                        stdin=pl.data),
                 "fix-path": C.CliJob(fargs + [pf.fname], pf.root),
